@@ -68,45 +68,71 @@ func (c *Ctx) fieldLoads() map[*types.Var][]ssa.Value {
 // every load of f in the library) and local variables.
 func (c *Ctx) forward(srcs []ssa.Value, through func(call *ssa.Call, argIdx int) bool) *flowResult {
 	res := &flowResult{Vals: map[ssa.Value]bool{}, Rets: map[retUse]bool{}, CallArg: map[*ssa.Call][]int{}, Fields: map[*types.Var]bool{}}
-	work := append([]ssa.Value{}, srcs...)
+	// hp: the value was reached by entering a library helper through one of its parameters; inside such a helper a
+	// store into an object the helper itself allocates (a constructor filling its struct) is not an accumulation
+	type item struct {
+		v  ssa.Value
+		hp bool
+	}
+	var work []item
+	for _, s := range srcs {
+		work = append(work, item{s, false})
+	}
+	seenHP := map[ssa.Value]bool{}
 	for len(work) > 0 {
-		v := work[len(work)-1]
+		it := work[len(work)-1]
 		work = work[:len(work)-1]
-		if v == nil || res.Vals[v] {
+		v := it.v
+		if v == nil {
 			continue
+		}
+		if it.hp {
+			if seenHP[v] || res.Vals[v] {
+				continue
+			}
+			seenHP[v] = true
+		} else {
+			if res.Vals[v] {
+				continue
+			}
 		}
 		res.Vals[v] = true
 		refs := v.Referrers()
 		if refs == nil {
 			continue
 		}
+		push := func(x ssa.Value) { work = append(work, item{x, it.hp}) }
 		for _, r := range *refs {
 			switch x := r.(type) {
 			case *ssa.Phi:
-				work = append(work, x)
+				push(x)
 			case *ssa.ChangeType:
-				work = append(work, x)
+				push(x)
 			case *ssa.MakeInterface:
-				work = append(work, x)
+				push(x)
 			case *ssa.ChangeInterface:
-				work = append(work, x)
+				push(x)
 			case *ssa.TypeAssert:
-				work = append(work, x)
+				push(x)
 			case *ssa.Extract:
-				work = append(work, x)
+				push(x)
 			case *ssa.Call:
 				for i, a := range x.Call.Args {
 					if a == v {
 						res.CallArg[x] = append(res.CallArg[x], i)
 						if through != nil && through(x, i) {
-							work = append(work, x)
+							push(x)
+						}
+						// into a library helper: the value continues as the helper's parameter
+						if h := x.Call.StaticCallee(); h != nil && !x.Call.IsInvoke() && c.P.InLib(h) && len(h.Blocks) > 0 && !ssax.IsParserSig(h.Signature) && i < len(h.Params) {
+							work = append(work, item{h.Params[i], true})
 						}
 					}
 				}
 				if x.Call.IsInvoke() && x.Call.Value == v {
 					res.CallArg[x] = append(res.CallArg[x], -1)
 					if through != nil && through(x, -1) {
-						work = append(work, x)
+						push(x)
 					}
 				}
 			case *ssa.Store:
@@ -115,16 +141,21 @@ func (c *Ctx) forward(srcs []ssa.Value, through func(call *ssa.Call, argIdx int)
 				}
 				switch a := x.Addr.(type) {
 				case *ssa.FieldAddr:
+					if _, fresh := a.X.(*ssa.Alloc); fresh && it.hp {
+						continue
+					}
 					if fv := fieldVar(a); fv != nil {
 						res.Fields[fv] = true
 						res.Stores = append(res.Stores, x)
-						work = append(work, c.fieldLoads()[fv]...)
+						for _, l := range c.fieldLoads()[fv] {
+							work = append(work, item{l, false})
+						}
 					}
 				case *ssa.Alloc:
 					if a.Referrers() != nil {
 						for _, rr := range *a.Referrers() {
 							if u, ok := rr.(*ssa.UnOp); ok && u.Op == token.MUL {
-								work = append(work, u)
+								push(u)
 							}
 						}
 					}
@@ -132,6 +163,9 @@ func (c *Ctx) forward(srcs []ssa.Value, through func(call *ssa.Call, argIdx int)
 					// a captured variable: loads in the same function and in the creator are not followed
 				}
 			case *ssa.Return:
+				if it.hp {
+					continue // what a helper returns reaches the caller only through the calls accepted by `through`
+				}
 				for i, rv := range x.Results {
 					if rv == v {
 						res.Rets[retUse{x, i}] = true
